@@ -622,6 +622,8 @@ type Job struct {
 	brute           int
 	pruned          int
 	fallbacks       int
+	race            bool
+	raceCount       int
 	labels          []string
 	solveTime       time.Duration
 	inconclusive    []string
